@@ -62,7 +62,7 @@ def nontrivial(case, tr):
     return tr["hi"] < fs
 
 
-def check_distance_result(res, tr, tol, tag, prefix="", need_points=True):
+def check_distance_result(res, tr, tol, tag, prefix="", need_points=True, exact_zero=True):
     """Clauses 1-5 for a (d, a, b) answer against truth tr."""
     fails = []
     d, a, b = res[0], res[1], res[2]
@@ -90,10 +90,10 @@ def check_distance_result(res, tr, tol, tag, prefix="", need_points=True):
         fails.append(fail(prefix + "too-short/" + tag,
                           "d=%.9g but a separating plane proves >= %.9g" % (d, tr["lo"]),
                           n=tr["n"]))
-    if tr["overlap_depth"] > tol and d != 0.0:
+    if exact_zero and tr["overlap_depth"] > tol and d != 0.0:
         fails.append(fail(prefix + "overlap-nonzero/" + tag,
                           "sets share a point %.3g inside both but d=%.3g" % (tr["overlap_depth"], d)))
-    if tr["lo"] > tol and not d > 0.0:
+    if exact_zero and tr["lo"] > tol and not d > 0.0:
         fails.append(fail(prefix + "separated-zero/" + tag, "gap >= %.3g but d=0" % tr["lo"]))
     return fails
 
